@@ -1293,3 +1293,227 @@ def norm(w, fn, call):
   new.end_lineno = getattr(call, "end_lineno", None)
   new.end_col_offset = getattr(call, "end_col_offset", None)
   return new
+
+
+# ------------------------------------------------------------------ helpers read in place (AST)
+def _inlinable_helper(w, fn, call, select):
+  fi = self_method(w, fn, call)
+  if fi is None or fi.qualname == fn.qualname or fi.parent is not None:
+    return None
+  if select is not None and not select(fi):
+    return None
+  node = fi.node
+  if node.decorator_list or node.args.vararg or node.args.kwarg or node.args.kwonlyargs or \
+      node.args.posonlyargs:
+    return None
+  for x in ast.walk(node):
+    if isinstance(x, (ast.Yield, ast.YieldFrom, ast.Global, ast.Nonlocal, ast.Lambda)) or \
+        (isinstance(x, (ast.FunctionDef, ast.AsyncFunctionDef, ast.ClassDef)) and x is not node):
+      return None
+  # `return` only as the last top-level statement
+  rets = [x for x in ast.walk(node) if isinstance(x, ast.Return)]
+  if len(rets) > 1 or (rets and rets[0] is not node.body[-1]):
+    return None
+  return fi
+
+
+def inlined_fn(w, qualname, select=None, suffix="__h"):
+  """An Fn for function `qualname` in which every statement `self._helper(...)` /
+  `<name> = self._helper(...)` calling a private method of the same class (select(FuncInfo)) is
+  replaced by the helper's body: parameters become fresh locals bound to the arguments, the
+  helper's other locals are renamed apart, a final `return X` becomes `<name> = X`. The result
+  behaves like the original, so a rule reading it decides the same property whether a group of
+  statements is written in place or extracted into a helper called at that point. Helpers with
+  early returns, nested functions, lambdas, generators or */** parameters are left as calls.
+  Returns the ordinary Fn when nothing was inlined."""
+  from ..fn import Fn
+  from ..index import FuncInfo
+  fn = w.fn(qualname)
+  ua = set(f.qualname for f in w.useraction_methods().values())
+  if select is None:
+    # by default only helpers that exist for this one function: private, no user action, and every
+    # mention of their name anywhere is a self.<name>(...) call made by this function
+    def select(fi):
+      if not fi.name.startswith("_") or fi.name.startswith("__") or fi.qualname in ua:
+        return False
+      rs = referrers(w, fi)
+      return bool(rs) and all(ok and (g.qualname == qualname or
+                                      (g.parent is not None and g.parent.qualname == qualname))
+                              for (g, ok) in rs)
+  counter = [0]
+
+  def expand_stmt(s):
+    v = s.value if isinstance(s, (ast.Expr, ast.Assign)) else None
+    if not isinstance(v, ast.Call):
+      return None
+    if isinstance(s, ast.Assign) and not (len(s.targets) == 1 and
+                                          isinstance(s.targets[0], ast.Name)):
+      return None
+    hfi = _inlinable_helper(w, fn, v, select)
+    if hfi is None:
+      return None
+    params = hfi.params()[1:]
+    try:
+      args = [arg_of(v, hfi, p) for p in params]
+    except AnalysisError:
+      return None
+    if any(a is None for a in args):
+      return None
+    counter[0] += 1
+    tag = "%s%d" % (suffix, counter[0])
+    hnode = hfi.node
+    stored = {x.id for x in ast.walk(hnode) if isinstance(x, ast.Name) and
+              isinstance(x.ctx, (ast.Store, ast.Del))}
+    stored |= {h.name for h in ast.walk(hnode) if isinstance(h, ast.ExceptHandler) and h.name}
+    rename = {n: n + tag for n in stored | set(params)}
+    class Ren(ast.NodeTransformer):
+      def visit_Name(self, node):
+        if node.id in rename:
+          return ast.copy_location(ast.Name(id=rename[node.id], ctx=node.ctx), node)
+        return node
+      def visit_ExceptHandler(self, node):
+        self.generic_visit(node)
+        if node.name in rename:
+          node.name = rename[node.name]
+        return node
+    body = [Ren().visit(_copy.deepcopy(st)) for st in hnode.body]
+    if body and isinstance(body[0], ast.Expr) and isinstance(body[0].value, ast.Constant) and \
+        isinstance(body[0].value.value, str):
+      body = body[1:]         # docstring
+    out = []
+    for p, a in zip(params, args):
+      st = ast.Assign(targets=[ast.Name(id=rename[p], ctx=ast.Store())], value=a)
+      out.append(ast.copy_location(st, s))
+    if body and isinstance(body[-1], ast.Return):
+      r = body.pop()
+      if isinstance(s, ast.Assign):
+        val = r.value if r.value is not None else ast.Constant(value=None)
+        body.append(ast.copy_location(ast.Assign(targets=s.targets, value=val), r))
+      elif r.value is not None:
+        body.append(ast.copy_location(ast.Expr(value=r.value), r))
+    elif isinstance(s, ast.Assign):
+      body.append(ast.copy_location(ast.Assign(targets=s.targets,
+                                               value=ast.Constant(value=None)), s))
+    out.extend(body)
+    if not out:
+      out = [ast.copy_location(ast.Pass(), s)]
+    for st in out:
+      ast.fix_missing_locations(st)
+    return out
+
+  changed = [False]
+  def walk_block(stmts):
+    res = []
+    for s in stmts:
+      rep = expand_stmt(s)
+      if rep is not None:
+        changed[0] = True
+        res.extend(rep)
+        continue
+      for fld in ("body", "orelse", "finalbody"):
+        b = getattr(s, fld, None)
+        if isinstance(b, list) and b and isinstance(b[0], ast.stmt) and \
+            not isinstance(s, (ast.FunctionDef, ast.AsyncFunctionDef, ast.ClassDef)):
+          setattr(s, fld, walk_block(b))
+      for h in getattr(s, "handlers", []) or []:
+        h.body = walk_block(h.body)
+      res.append(s)
+    return res
+
+  node = _copy.deepcopy(fn.node)
+  node.body = walk_block(node.body)
+  if not changed[0]:
+    return fn
+  ast.fix_missing_locations(node)
+  fi = fn.fi
+  fake = FuncInfo(fi.module, fi.cls, node, fi.qualname, fi.parent)
+  typer = w.typer
+  saved = typer._cache.pop(fi.qualname, None)
+  try:
+    f2 = Fn(w, fake)
+    f2._env = typer.env(fake)
+  finally:
+    typer._cache.pop(fi.qualname, None)
+    if saved is not None:
+      typer._cache[fi.qualname] = saved
+  f2.inlined_from = fn
+  return f2
+
+
+def origin_defs(rd, name, at, depth=0):
+  """Definition nodes the value of local `name` read at `at` originates from, looking through plain
+  copies (`a = b`): the bindings that are not themselves a copy of another local."""
+  out = set()
+  if depth > 8:
+    return out
+  for d in rd.reaching(name, at):
+    v = def_value(rd.cfg, d) if d != ReachDefs.ENTRY else None
+    if isinstance(v, ast.Name):
+      out |= origin_defs(rd, v.id, d, depth + 1)
+    else:
+      out.add(d)
+  return out
+
+
+# -------------------------------------------------- a World whose functions are keyword-normalised
+class NormWorld(object):
+  """Proxy of a World for running a rule written for positional arguments: fn()/fn_of() return Fn
+  objects over copies of the function bodies in which keyword arguments of calls whose callee is
+  known (same class, typed receiver, or one shared signature) have been moved to their positions.
+  Passing an argument by keyword instead of by position does not change what a call does, so the
+  rule decides the same property. Everything else is delegated to the real World."""
+
+  def __init__(self, w):
+    self._w = w
+    self._nfns = {}
+
+  def __getattr__(self, name):
+    return getattr(self._w, name)
+
+  def fn(self, qualname):
+    return self.fn_of(self._w.repo.func(qualname))
+
+  def fn_of(self, fi):
+    if fi.qualname in self._nfns:
+      return self._nfns[fi.qualname]
+    from ..fn import Fn
+    from ..index import FuncInfo
+    w = self._w
+    base = w.fn_of(fi)
+    node = _copy.deepcopy(fi.node)
+    # resolve callees on the original nodes (types are computed for them), rewrite the copy
+    orig_calls = [x for x in ast.walk(fi.node) if isinstance(x, ast.Call)]
+    copy_calls = [x for x in ast.walk(node) if isinstance(x, ast.Call)]
+    changed = False
+    if len(orig_calls) == len(copy_calls):
+      for oc, cc in zip(orig_calls, copy_calls):
+        if not oc.keywords:
+          continue
+        n2 = norm(w, base, oc)
+        if n2 is not oc:
+          # same argument order, taken from the copy
+          kws = {k.arg: k.value for k in cc.keywords}
+          order = []
+          for a in n2.args[len(oc.args):]:
+            for k in oc.keywords:
+              if k.value is a:
+                order.append(k.arg)
+          cc.args = list(cc.args) + [kws[k] for k in order]
+          cc.keywords = []
+          changed = True
+    if not changed:
+      self._nfns[fi.qualname] = base
+      return base
+    ast.fix_missing_locations(node)
+    fake = FuncInfo(fi.module, fi.cls, node, fi.qualname, fi.parent)
+    typer = w.typer
+    saved = typer._cache.pop(fi.qualname, None)
+    try:
+      f2 = Fn(self, fake)
+      f2._env = typer.env(fake)
+    finally:
+      typer._cache.pop(fi.qualname, None)
+      if saved is not None:
+        typer._cache[fi.qualname] = saved
+    self._nfns[fi.qualname] = f2
+    return f2
